@@ -259,10 +259,16 @@ def integrate(ctx, want_obs):
     return res
 
 
-def rebuild(model, path):
+def rebuild(model, path, cast_after=None):
+    """Replay a history.  cast_after = i: the module is cast to jax (as integrate / get_parameters users do)
+    after the i-th call and not again, so that a consumer relying on a stale cast is exposed."""
     ctx = Ctx(model)
-    for lab in path:
+    if cast_after == 0:
+        ctx.cell.to_jax()
+    for i, lab in enumerate(path):
         apply(ctx, lab)
+        if cast_after == i + 1:
+            ctx.cell.to_jax()
     return ctx
 
 
@@ -302,6 +308,19 @@ def main():
                         for b in routes(model, frozen, lab, dst, st["state"]):
                             out["mismatch"].append({"kind": "route", "path": st["path"], "label": lab, "detail": b,
                                                     "route": b["route"]})
+                    if lab == "AWriteTrainables":
+                        # the same call on modules that were cast to jax at an EARLIER point of the history only
+                        for i in range(len(st["path"])):
+                            c5 = rebuild(model, st["path"], cast_after=i)
+                            apply(c5, lab)
+                            bad5 = compare(project(c5), dst)
+                            out["transitions"] += 1
+                            if bad5:
+                                out["mismatch"].append({"kind": "transition", "path": st["path"], "label": lab, "differs": bad5,
+                                                        "variant": "module cast to jax after call %d of the history" % i,
+                                                        "src_trains": st["state"]["trains"], "src_reg": st["state"]["reg"],
+                                                        "src_recs": st["state"]["recs"], "got": {}, "want": {}})
+                                break
                     c2 = Ctx.thaw(model, frozen)
                     apply(c2, lab)
                     got = project(c2)
